@@ -642,6 +642,9 @@ let () =
             | _ -> impl_obs = "err")
          else true) in
        count corr prop; verdict id corr prop (if before <> after then "observation-changed" else if idem <> "1" then "not-idempotent" else if detected <> "1" then "not-detected" else if not shape_ok then "bad-key-shape" else if not values_ok then "written-values-differ" else "same")
+     | [id; "api"; group; failed; _] ->
+       (* less-travelled entry points must agree with the main one they are a variant of; the harness lists the equivalences that fail *)
+       let prop = Some (failed = "") in count true prop; verdict id true prop (if failed = "" then group else group ^ ": " ^ failed)
      | [id; "keys"; mp; dbg; impl] ->
        (* C03: a key is written exactly when the map has a value for it; version and sources always *)
        let m0 = map_of_string mp in
